@@ -13,7 +13,7 @@ META = dict(
               "re-establish the invariant; policy level: 3 "
               "always-failing calls alternating between two Retry/AsyncRetry objects sharing one Budget (max_retries in "
               "[0,2]), max_attempts 2, solver-real gaps between calls and sleeper overshoots",
-        thorough="K=6; 4 policy calls with max_attempts 3; step harness with max_retries <= 4",
+        thorough="K=6; 3 policy calls with max_attempts 3; step harness with max_retries <= 4",
     ),
     assumptions=["floats as reals; a grant made at instant g occupies the half-open interval [g, g + window_s)",
                  "single-threaded use (C17 covers interleavings)"],
@@ -208,5 +208,5 @@ def jobs(tier):
                         max_wall_s=wall, weight=2))
     for a in (False, True):
         out.append(dict(name=f"policy:{'async' if a else 'sync'}", harness="rv.props.c10:h_policy",
-                        params={"async": a, "calls": 3 if q else 4, "max_attempts": 2 if q else 3}, max_wall_s=wall, weight=4))
+                        params={"async": a, "calls": 3, "max_attempts": 2 if q else 3}, max_wall_s=wall, weight=4))
     return out
